@@ -189,7 +189,7 @@ def span(ctx):
             ok = li is not None and li["k"] in CTORS and len(li["args"]) == 1 and \
                 path(f, f.s(li["args"][0])) == "p:" + f.params[0]["name"]
             ctx.ob(rid, ok, f.where, "deleter adopts the lock it is given", "", fn=f.label, inst=f.qname)
-            ok = path(f, ini.get("m_guarded")) == "p:" + f.params[1]["name"]
+            ok = path(f, ini.get("m_guarded")) in ("p:" + f.params[1]["name"], "&p:" + f.params[1]["name"])     # reference or pointer member
             ctx.ob(rid, ok, f.where, "deleter is bound to the cow_guarded it is given", "", fn=f.label, inst=f.qname)
             c = unwrap(f, ini.get("m_cancelled"))
             ok = c is not None and c["k"] == "CXXBoolLiteralExpr" and c["v"] is False
@@ -215,7 +215,7 @@ def commit(ctx):
                if abandoned else "m_lock may still be owned when the deleter returns: after handle.reset() the object stays "
                "locked for as long as the (empty) handle lives"), fn=f.label, inst=f.qname)
         mods = {tuple(f.pos_of(st)): st for st in f.stmts.values() if st["k"] == "CXXMemberCallExpr" and
-                st["callee"]["name"] == "modify" and path(f, f.s(st["obj"])) == "this.m_guarded.m_data"}
+                st["callee"]["name"] == "modify" and path(f, f.s(st["obj"])) in ("this.m_guarded.m_data", "this.m_guarded->m_data")}
         unl = {tuple(f.pos_of(st)): st for st in f.stmts.values() if st["k"] == "CXXMemberCallExpr" and
                st["callee"]["name"] == "unlock" and path(f, f.s(st["obj"])) == "this.m_lock"}
         dels = {tuple(f.pos_of(st)): st for st in f.stmts.values() if st["k"] == "CXXDeleteExpr" and
@@ -284,16 +284,24 @@ def commit(ctx):
                         for dd in d["decls"]:
                             if dd["name"] in caps:
                                 init = unwrap(f, f.s(dd.get("init")))
+                                while init is not None and init["k"] in CTORS and len(init["args"]) == 1 and \
+                                        path(f, f.s(init["args"][0])) != pn and \
+                                        (f.s(init["args"][0]) or {}).get("t", "").replace("const ", "", 1).startswith("std::shared_ptr<"):
+                                    init = unwrap(f, f.s(init["args"][0]))      # copy / move of the shared_ptr itself
+                                tt = dd["type"].strip()
+                                tt = tt[6:] if tt.startswith("const ") else tt
                                 if init is not None and init["k"] in CTORS and len(init["args"]) == 1 and \
-                                        path(f, f.s(init["args"][0])) == pn and dd["type"].startswith("std::shared_ptr<const "):
+                                        path(f, f.s(init["args"][0])) == pn and tt.startswith("std::shared_ptr<const "):
                                     srcok = dd["name"]
                 g = None
                 for oid in lam.get("call_ops", []):
                     g = f.unit.fn_by_id.get(oid)
                 if g is not None and srcok:
                     asg = [s for s in g.stmts.values() if s["k"] == "CXXOperatorCallExpr" and s.get("op") == "="]
+                    # (the captured variable keeps its plain name inside the closure; in an inlined helper the outer name
+                    # carries the helper's tag: publish$newPtr)
                     ok = len(asg) == 1 and path(g, g.s(asg[0]["args"][0])) == "p:" + g.params[0]["name"] and \
-                        path(g, g.s(asg[0]["args"][1])) == "l:" + srcok
+                        path(g, g.s(asg[0]["args"][1])) in ("l:" + srcok, "l:" + srcok.split("$")[-1], "p:" + srcok.split("$")[-1])
                     detail = "" if ok else "the lambda does not assign the captured pointer to its parameter"
                 else:
                     detail = "the captured pointer is not a shared_ptr<const T> built from the handle's pointer"
@@ -312,6 +320,19 @@ def commit(ctx):
         ok = len(sets) == 1 and (unwrap(f, f.children(sets[0])[1]) or {}).get("v") is True and \
             f.postdominates(f.pos_of(sets[0]), (f.entry, 0))
         ctx.ob(rid, ok, f.where, "cancel() marks the deleter cancelled on every path", "", fn=f.label, inst=f.qname)
+    # whoever publishes a new version does so as THE writer: every commit into m_data happens with m_writeMutex held (the
+    # deleter holds it through its lock member; any other operation has to lock it itself)
+    for f in fb.functions(rec=COW):
+        if f.kind in ("ctor", "dtor"):
+            continue
+        la_ = eng.locks(f)
+        for st in f.stmts.values():
+            if st["k"] == "CXXMemberCallExpr" and st["callee"]["name"] == "modify" and path(f, f.s(st["obj"])) == "this.m_data":
+                pos_ = f.pos_of(st)
+                ok = pos_ is not None and la_.holds(pos_, "this.m_writeMutex", "X")
+                ctx.ob(rid, ok, f.loc(st), "%s commits a new version with m_writeMutex held" % f.name, "" if ok else
+                       "m_data.modify is reached without the writer mutex: a write handle that is alive meanwhile was copied from "
+                       "the version before this one, and its release overwrites what is published here", fn=f.label, inst=f.qname)
     for f in fb.functions(rec=HND, name="cancel"):
         calls = [st for st in f.stmts.values() if st["k"] == "CXXMemberCallExpr"]
         c = [s for s in calls if s["callee"]["name"] == "cancel"]
